@@ -217,30 +217,71 @@ def _proper_cross(env, A, B, C, D):
     return big & ins if env.mode == "sym" else (big and ins)
 
 
-def _mk_pintersect(n1, n2, closed1, closed2):
+class _LogList(list):
+    """list that records the indices it is read at (to know which edge pairs the routine looks at)"""
+    def __init__(self, items, log, tag):
+        super().__init__(items)
+        self._log, self._tag = log, tag
+
+    def __getitem__(self, k):
+        self._log.append((self._tag, k))
+        return super().__getitem__(k)
+
+
+def _mk_pintersect(n1, n2, closed1, closed2, parallel_only=False):
+    """parallel_only: all edges of both polylines (including the wrap-around ones) are assumed parallel, so every edge-pair test takes the
+    'almost certainly doesn't intersect' branch: what is decided there is WHICH pairs the routine looks at (loop bounds, wrap-around, the
+    closed1/closed2 flags); the meaning of one pair test is decided by the obligations without that restriction"""
     def body(env):
-        P1 = [(env.real("p%dr" % i, lo=LO, hi=HI), env.real("p%dz" % i, lo=LO, hi=HI)) for i in range(n1)]
-        P2 = [(env.real("q%dr" % i, lo=LO, hi=HI), env.real("q%dz" % i, lo=LO, hi=HI)) for i in range(n2)]
-        got = polygons.intersect([p[0] for p in P1], [p[1] for p in P1], [p[0] for p in P2], [p[1] for p in P2], closed1=closed1, closed2=closed2)
-        e1 = [(P1[i], P1[(i + 1) % n1]) for i in range(n1 if closed1 else n1 - 1)]
-        e2 = [(P2[i], P2[(i + 1) % n2]) for i in range(n2 if closed2 else n2 - 1)]
-        want = None
-        for (a, b) in e1:
-            for (c, d) in e2:
-                pc = _proper_cross(env, a, b, c, d)
-                want = pc if want is None else (want | pc if env.mode == "sym" else (want or pc))
+        if not parallel_only:
+            P1 = [(env.real("p%dr" % i, lo=LO, hi=HI), env.real("p%dz" % i, lo=LO, hi=HI)) for i in range(n1)]
+            P2 = [(env.real("q%dr" % i, lo=LO, hi=HI), env.real("q%dz" % i, lo=LO, hi=HI)) for i in range(n2)]
+        if parallel_only:
+            # all vertices on one line (symbolic positions along it): every determinant vanishes identically (decided by the normal form)
+            ss = [env.real("s%d" % i, lo=-4, hi=4) for i in range(n1)]
+            tt = [env.real("t%d" % i, lo=-4, hi=4) for i in range(n2)]
+            P1 = [(1 + 2 * a, 3 - a) for a in ss]
+            P2 = [(1 + 2 * a, 3 - a) for a in tt]
+        log = []
+        got = polygons.intersect(_LogList([p[0] for p in P1], log, "r1"), _LogList([p[1] for p in P1], log, "z1"),
+                                 _LogList([p[0] for p in P2], log, "r2"), _LogList([p[1] for p in P2], log, "z2"), closed1=closed1, closed2=closed2)
+        # edge pairs looked at, in order: every visit reads r1[ip], r1[i] first and r2[jp], r2[j] next
+        r1reads = [k for (t, k) in log if t == "r1"]
+        r2reads = [k for (t, k) in log if t == "r2"]
+        visits = []
+        a_i, b_i = 0, 0
+        while a_i + 2 < len(r1reads) + 1 and b_i + 2 < len(r2reads) + 1 and a_i + 1 < len(r1reads) and b_i + 1 < len(r2reads):
+            ip, i = r1reads[a_i], r1reads[a_i + 1]
+            jp, j = r2reads[b_i], r2reads[b_i + 1]
+            visits.append((i, ip, j, jp))
+            a_i += 3   # r1[ip], r1[i], then r1[i] once more for dr
+            b_i += 3   # r2[jp], r2[j], then r2[jp] once more for dr
+        e1 = [(i, (i + 1) % n1) for i in range(n1 if closed1 else n1 - 1)]
+        e2 = [(j, (j + 1) % n2) for j in range(n2 if closed2 else n2 - 1)]
+        legit = [(i, ip, j, jp) for (i, ip) in e1 for (j, jp) in e2]
         env.tag("True" if got else "False")
+        env.claim("only_real_edge_pairs_are_tested", all(v in legit for v in visits))
         if got:
-            env.claim("true_implies_some_edge_pair_crosses", want)
+            i, ip, j, jp = visits[-1]
+            env.claim("true_only_when_the_tested_edge_pair_crosses", _proper_cross(env, P1[i], P1[ip], P2[j], P2[jp]))
         else:
-            env.claim("false_implies_no_edge_pair_crosses", ~want if env.mode == "sym" else (not want))
+            env.claim("false_only_after_every_edge_pair_was_tested", sorted(visits) == sorted(legit))
+            for (i, ip, j, jp) in legit:
+                pc = _proper_cross(env, P1[i], P1[ip], P2[j], P2[jp])
+                env.claim("false_implies_edge_pair_does_not_cross", ~pc if env.mode == "sym" else (not pc))
         env.witness("result_%s" % bool(got))
     return body
 
 
-for (_n1, _n2, _c1, _c2, _tier) in [(2, 2, False, False, "quick"), (3, 2, False, False, "quick"), (2, 3, False, False, "quick"),
-                                    (3, 2, True, False, "thorough"), (2, 3, False, True, "thorough"), (3, 3, True, True, "thorough"),
-                                    (4, 2, True, False, "thorough")]:
+for (_n1, _n2, _c1, _c2) in [(3, 2, True, False), (2, 3, False, True), (3, 3, True, True), (3, 3, True, False), (3, 3, False, True), (4, 3, True, True), (4, 2, True, False)]:
+    OBLIGATIONS.append(Ob("polygons_intersect_edge_pairs_%d%s_%d%s" % (_n1, "c" if _c1 else "o", _n2, "c" if _c2 else "o"),
+                          _mk_pintersect(_n1, _n2, _c1, _c2, parallel_only=True), tier="quick", family="polygons.intersect",
+                          desc="which edge pairs are tested: exactly the edges of each polyline (closing edge iff that polyline is closed), all pairs, none else",
+                          encodes=["hypnotoad.utils.polygons:intersect"], bounds="%d and %d vertices, closed=%s/%s, all vertices on one line, positions symbolic (every pair test takes the small-determinant branch)" % (_n1, _n2, _c1, _c2),
+                          max_paths=200))
+# (full-geometry runs with a closing edge were tried: 3 edge pairs with a shared vertex need ~700 s of nlsat time, 9 pairs do not finish in 900 s;
+#  the meaning of one pair test is decided on the open polylines below, the loop structure above)
+for (_n1, _n2, _c1, _c2, _tier) in [(2, 2, False, False, "quick"), (3, 2, False, False, "quick"), (2, 3, False, False, "quick")]:
     OBLIGATIONS.append(Ob("polygons_intersect_%d%s_%d%s" % (_n1, "c" if _c1 else "o", _n2, "c" if _c2 else "o"),
                           _mk_pintersect(_n1, _n2, _c1, _c2), tier=_tier, family="polygons.intersect",
                           desc="returns True <=> some pair of edges crosses properly (alpha,beta in (0,1), |det| >= 1e-6); open and closed polylines",
